@@ -398,7 +398,13 @@ class ClassObject(Object, Callable):
     @cached_property
     def bases(self):
         # type: () -> list[CallableProto]
-        return list(filter(None, (self.ctx.evaluate(r) for r in self.scope._bases)))  # type: ignore[misc]
+        result = []  # type: list[CallableProto]
+        for r in self.scope._bases:
+            value = self.ctx.evaluate(r)
+            # a conditionally bound base contributes all its alternatives
+            values = value.values if isinstance(value, CompositeValue) else [value]
+            result.extend(v for v in values if isinstance(v, Callable))  # type: ignore[misc]
+        return result
 
     @cached_property
     def _attrs(self):
